@@ -45,7 +45,7 @@ package flate
 //@   requires tabsOK(&r.state)
 //@   requires typeis(under, *bufio.Reader) ==> brOK(under.(*bufio.Reader))
 //@   modifies *r, *r.rBuf
-//@   ensures[C13 fresh] rdFresh(r) && err == nil
+//@   ensures[C03 C13 fresh] rdFresh(r) && err == nil
 //@   ensures[C05 C13 src-direct] typeis(under, *bufio.Reader) ==> r.rBuf == under.(*bufio.Reader)
 
 //@ pure dhPre(state *inflate, output []byte, written int) bool = state != nil && stBase(state) && state.bitsLen >= 0 && state.phase == phaseHeaderDecoded && 0 <= written && written <= len(output) && len(output) == 65536 && state.input != nil && state.bfinal <= 1 && state.writeOverflowLen == 0 && tabsOK(state)
@@ -301,8 +301,10 @@ package flate
 //@   ensures[C03 phase] err != nil ==> state.phase == phaseLitBlock
 //@   ensures[C04 end-input-drained] err == errEndInput ==> len(state.input) == 0 && state.bitsLen == 0
 //@   ensures[C02 C05 accounting] remBits(state) == old(remBits(state)) - 8*(w - written)
+//@   ensures[C02 C04 bits-kept] state.bitsLen > 0 ==> state.bits == old(state.bits) >> uint64(old(state.bitsLen) - state.bitsLen)
 //@   ensures stBase(state) && state.bitsLen % 8 == 0 && 0 <= state.bitsLen && len(state.input) <= old(len(state.input)) && sameobj(state.input, old(state.input)) && state.input != nil
 //@   ensures forall k :: 0 <= k && k < written ==> output[k] == old(output[k])
+//@   loop 1 invariant state.bits == old(state.bits) >> uint64(8*count) && count <= 8
 //@   loop 1 invariant 0 <= count && count <= length && (state.bitsLen != 0 ==> count < length) && written == old(written) + count && 0 <= length && old(written) + length <= len(output) && length <= old(state.litBlockLength) && state.litBlockLength == old(state.litBlockLength) - length && length <= int(old(state.bitsLen)/8) + len(state.input) && state.bitsLen == old(state.bitsLen) - int32(8*count) && state.bitsLen % 8 == 0 && 0 <= state.bitsLen && state.bitsLen <= 64 && same(state.input) && (err == nil || err == errEndInput || err == errOutputOverflow) && (err == nil ==> length == old(state.litBlockLength) && (state.bfinal != 0 ==> state.phase == phaseStreamEnd) && (state.bfinal == 0 ==> state.phase == phaseNewBlock)) && (err != nil ==> state.phase == phaseLitBlock) && (err == errEndInput ==> length == int(old(state.bitsLen)/8) + len(state.input)) && (forall k :: 0 <= k && k < old(written) ==> output[k] == old(output[k]))
 
 // ---------------------------------------------------------------------------
